@@ -159,20 +159,22 @@ pub fn check_conn(o: &Outcome, p: &Plan, stats: &mut HashMap<&'static str, u64>)
             }
         }
     }
-    // (P3) the client writes one KeepAlive at every 120 s tick of this connection while it is open
+    // (P3) the client writes one KeepAlive at every 120 s tick of this connection while it is open.
+    // A frame may follow its tick by up to 10 s (the connection task can be waiting for the manager
+    // at that moment; nothing in the system takes longer); whether the tick on which the connection
+    // is closed still produces a frame is left open, as is a tick inside the last 10 s.
     let sent: Vec<u64> = evs.iter().filter_map(|e| match &e.kind { EvKind::Send { msg: Msg::KeepAlive, .. } => Some(e.ms), _ => None }).collect();
     let mut expected = vec![];
     let mut k = 1;
     while t0 + k * TICK < end { expected.push(t0 + k * TICK); k += 1; }
-    // a tick that coincides with the end of the connection may or may not have produced a frame
-    let coincide = (end - t0) % TICK == 0 && end > t0 && !timeout_kill;
     *stats.entry("keepalive_frames_checked").or_default() += sent.len() as u64;
-    // one frame per tick; a frame may be written a little after its tick when the connection task
-    // is waiting for the manager at that moment (not more than 10 s: nothing in the system takes longer)
-    let near = |a: &[u64], b: &[u64]| a.len() == b.len() && a.iter().zip(b.iter()).all(|(x, y)| *x >= *y && *x <= *y + 10_000);
-    let ok = near(&sent, &expected) || (coincide && sent.len() == expected.len() + 1 && near(&sent[..expected.len()], &expected))
-        // a tick that falls inside the last 10 s before the end may still be pending
-        || (expected.last().map(|t| *t + 10_000 > end).unwrap_or(false) && sent.len() + 1 == expected.len() && near(&sent, &expected[..sent.len()]));
+    let tick_of = |x: u64| -> Option<u64> { if x < t0 + TICK { return None; } let k = (x - t0) / TICK; if x <= t0 + k * TICK + 10_000 { Some(k) } else { None } };
+    let ticks: Vec<Option<u64>> = sent.iter().map(|x| tick_of(*x)).collect();
+    let mut ok = ticks.iter().all(|t| t.is_some()) && ticks.windows(2).all(|w| w[0] < w[1]);
+    for (i, t) in expected.iter().enumerate() {
+        let must = *t + 10_000 <= end;
+        if must && !ticks.contains(&Some(i as u64 + 1)) { ok = false; }
+    }
     if !ok {
         return Some(Finding { sig: "C20:keepalive-emission".into(), what: format!("{}: task started at t={} ms, open until t={} ms; KeepAlive frames written at {:?}, expected at {:?}", a, t0, end, sent, expected), at_seq: kill.as_ref().map(|k| k.1).unwrap_or(u64::MAX) });
     }
@@ -234,7 +236,68 @@ pub fn gen_scenario(r: &mut Rng, seed: u64) -> Scenario {
         }
     }
     let desc = json!({"seed": seed, "pieces": n, "horizon_ms": horizon, "connections": pdesc});
+    let _ = &mut peers;
     Scenario { cfg: SimCfg { torrent, peers, tracker: vec![], failpoints: None, max_virtual_ms: horizon, stop_on_extract: false, linger_ms: 0, disk_on: disk_never, seed, pre: None, tracker_fn: None, driver: None }, desc, plans }
+}
+
+
+/// Sends Interested, asks for `nreq` blocks once unchoked and then neither reads nor writes any more:
+/// the client's answers pile up in a small pipe and its writes cannot complete.
+pub fn stalled_reader(id: [u8; 20], nreq: usize) -> crate::sim::Behaviour {
+    Box::new(move |mut io: crate::sim::PeerIo| Box::pin(async move {
+        let t = io.torrent.clone();
+        if !io.send(&Msg::handshake(&t.info_hash(), &id)).await { return; }
+        if !io.send(&Msg::Bitfield(bitfield_bytes(&vec![false; t.n()]))).await { return; }
+        if !io.send(&Msg::Interested).await { return; }
+        let mut owned: Vec<usize> = vec![];
+        let deadline = io.log.now_ms() + 120_000;
+        let mut unchoked = false;
+        while io.log.now_ms() < deadline && !(unchoked && !owned.is_empty()) {
+            match io.recv_within(deadline - io.log.now_ms()).await {
+                Ok(Some(Msg::Unchoke)) => unchoked = true,
+                Ok(Some(Msg::Choke)) => unchoked = false,
+                Ok(Some(Msg::Bitfield(b))) => owned = crate::wire::bitfield_bits(&b, t.n()).iter().enumerate().filter(|x| *x.1).map(|x| x.0).collect(),
+                Ok(Some(Msg::Have(i))) => owned.push(i as usize),
+                Ok(Some(_)) => (),
+                Ok(None) => return,
+                Err(()) => break,
+            }
+        }
+        if !unchoked || owned.is_empty() { io.close(); return; }
+        let mut k = 0;
+        'outer: loop {
+            for i in &owned {
+                for (b, l) in crate::wire::tiling(t.piece_len_of(*i)) {
+                    if k >= nreq { break 'outer; }
+                    if !io.send(&Msg::Request(*i as u32, b, l)).await { return; }
+                    k += 1;
+                }
+            }
+        }
+        io.log.note(&io.addr, format!("stalled reader: {} requests sent, from now on neither reads nor writes", k));
+        // hold the socket open without touching it
+        tokio::time::sleep(std::time::Duration::from_secs(100_000)).await;
+        drop(io);
+    }))
+}
+
+/// Family: a downloader that stops reading after asking for more data than its socket buffers hold.
+pub fn gen_stalled_reader(r: &mut Rng, seed: u64) -> Scenario {
+    let torrent = Rc::new(crate::torrent::gen_sim_torrent(r, 6, false));
+    let n = torrent.n();
+    let horizon = 900_000;
+    let mut s = SeederCfg::honest(peer_id(0), vec![true; n]);
+    s.unchoke_after_ms = Some(0);
+    s.idle_close_ms = 10_000_000;
+    s.chatter_ms = Some(60_000);
+    let s2 = s.clone();
+    let mut peers = vec![PeerSpec { addr: addr(0), id: peer_id(0), entry: Entry::Dialled { from_announce: 0 }, make: Box::new(move |nth| if nth > 1 { None } else { Some(seeder(s2.clone())) }), chunk: 0, pipe: 1 << 20 }];
+    let nreq = r.range(8, 64) as usize;
+    let pipe = *r.pick(&[1024usize, 4096, 16384, 40000]);
+    let at = r.range(2_000, 20_000);
+    peers.push(PeerSpec { addr: addr(1), id: peer_id(1), entry: Entry::Incoming { at_ms: at }, make: Box::new(move |nth| if nth > 1 { None } else { Some(stalled_reader(peer_id(1), nreq)) }), chunk: 0, pipe });
+    let desc = json!({"seed": seed, "family": "downloader-that-stops-reading", "pieces": n, "piece_length": torrent.piece_len, "horizon_ms": horizon, "connections": [{"addr": addr(1), "kind": "stalled-reader", "connects_at_ms": at, "requests": nreq, "pipe_bytes": pipe}]});
+    Scenario { cfg: SimCfg { torrent, peers, tracker: vec![], failpoints: None, max_virtual_ms: horizon, stop_on_extract: false, linger_ms: 0, disk_on: disk_never, seed, pre: None, tracker_fn: None, driver: None }, desc, plans: vec![] }
 }
 
 /// Like sim::peers::scripted, but the messages are logged structurally (the bytes are whole
@@ -276,7 +339,8 @@ pub fn run(ctx: &Ctx) -> Report {
     for k in 0..n {
         let seed = ctx.scenario_seed(r.next());
         let mut sr = Rng::new(seed);
-        let sc = gen_scenario(&mut sr, seed);
+        let stalled_family = sr.chance(1, 12);
+        let sc = if stalled_family { gen_stalled_reader(&mut sr, seed) } else { gen_scenario(&mut sr, seed) };
         let desc = sc.desc.clone();
         rep.evaluations += 1;
         let o = run_sim(sc.cfg, &ctx.scratch, 120);
@@ -304,6 +368,21 @@ pub fn run(ctx: &Ctx) -> Report {
                     match kill {
                         Some(t) if t <= m + 3 * TICK => (),
                         other => found = Some((sa.clone(), Finding { sig: "C20:silent-connection-not-closed".into(), what: format!("seeder {} fell silent at t={} ms in the middle of a download; dropped at {:?}", sa, m, other), at_seq: u64::MAX })),
+                    }
+                }
+            }
+        }
+        if found.is_none() && stalled_family {
+            let sa = addr(1);
+            let asked = o.events.iter().any(|e| e.addr == sa && matches!(&e.kind, EvKind::Note { text } if text.starts_with("stalled reader")));
+            let last = o.events.iter().filter(|e| e.addr == sa && matches!(e.kind, EvKind::PeerSent { .. })).map(|e| e.ms).last();
+            if let (true, Some(m)) = (asked, last) {
+                if o.end_ms > m + 3 * TICK + 1_000 {
+                    stats.insert("stalled_readers_judged", 1);
+                    let kill = o.mgr().find(|(e, kind, _)| *kind == "KillReq" && e.addr == sa).map(|(e, _, _)| e.ms);
+                    match kill {
+                        Some(t) if t <= m + 3 * TICK + 10_000 => (),
+                        other => found = Some((sa.clone(), Finding { sig: "C20:silent-connection-not-closed:writer-blocked".into(), what: format!("{} sent its last message at t={} ms and then stopped reading; the client's writes to it cannot complete; connection and peer state dropped at {:?} (end of run t={} ms)", sa, m, other, o.end_ms), at_seq: u64::MAX })),
                     }
                 }
             }
